@@ -2,7 +2,7 @@
 From Coq Require Import ZArith NArith List Bool String Ascii.
 From Coq Require Extraction.
 From Coq Require Import ExtrOcamlBasic ExtrOcamlString.
-From HV Require Import Gen.GenCheatSelectors Gen.GenCopies Spec.FoundrySpec Model.PrankModel Model.CheatModel Model.ForkModel.
+From HV Require Import Gen.GenCheatSelectors Gen.GenCopies Spec.FoundrySpec Spec.PrankKindSpec Model.PrankModel Model.PrankKindModel Model.CheatModel Model.ForkModel.
 Import ListNotations.
 Open Scope Z_scope.
 
@@ -37,6 +37,53 @@ Definition c14_prank (a : list Z) : list Z :=
 Definition c14_prank_spec (a : list Z) : list Z :=
   match a with
   | t :: s :: o :: r => flat_map enc_obs (s_run [s_fresh t s o] (dec_ops (List.length r) r))
+  | _ => []
+  end.
+
+(* ---------------------------------------------------------------- prank x call kind x value
+   input: this sender origin value n (account balance)*n ops...
+   ops: 0 keep s has_o o | 1 | 2 c | 3 k a v (k: 0 CALL 1 CALLCODE 2 DELEGATECALL 3 STATICCALL) | 4 k a v (k: 0 CREATE 1 CREATE2) | 5 | 6 a
+   output: 1 this sender origin value | 2 balance | 3 (no funds) | 0 (rejected) | 4 (lost) | 5 (double) *)
+Definition dec_ckind (k : Z) : ckind := if k =? 0 then CkCall else if k =? 1 then CkCallcode else if k =? 2 then CkDelegate else CkStatic.
+Fixpoint dec_kops (fuel : nat) (l : list Z) : list kop :=
+  match fuel with
+  | O => []
+  | S f =>
+    match l with
+    | 0 :: k :: s :: h :: o :: r => KPrank (negb (k =? 0)) s (if h =? 0 then None else Some o) :: dec_kops f r
+    | 1 :: r => KStopPrank :: dec_kops f r
+    | 2 :: c :: r => KCheat (dec_cheat c) :: dec_kops f r
+    | 3 :: k :: a :: v :: r => KCallK (dec_ckind k) a v :: dec_kops f r
+    | 4 :: k :: a :: v :: r => KCreate (if k =? 0 then NkCreate else NkCreate2) a v :: dec_kops f r
+    | 5 :: r => KReturn :: dec_kops f r
+    | 6 :: a :: r => KBalance a :: dec_kops f r
+    | _ => []
+    end
+  end.
+Fixpoint dec_bal (n : nat) (l : list Z) : balances * list Z :=
+  match n, l with
+  | S m, a :: x :: r => let '(b, rest) := dec_bal m r in (fun y => if y =? a then x else b y, rest)
+  | _, _ => (fun _ => 0, l)
+  end.
+Definition enc_kobs (o : kobs) : list Z :=
+  match o with
+  | KObs t s g v => [1; t; s; g; v] | KObsBal b => [2; b] | KObsNoFunds => [3] | KObsError => [0]
+  | KObsLost => [4] | KObsDouble => [5]
+  end.
+Definition c14_prank_kinds (a : list Z) : list Z :=
+  match a with
+  | t :: s :: o :: v :: n :: r =>
+      let '(b, r') := dec_bal (Z.to_nat n) r in
+      flat_map enc_kobs (km_run [k_fresh t s o v] b (dec_kops (List.length r') r'))
+  | _ => []
+  end.
+(* the specification's run, preceded by whether the sequence is in the fragment of the theorem *)
+Definition c14_prank_kinds_spec (a : list Z) : list Z :=
+  match a with
+  | t :: s :: o :: v :: n :: r =>
+      let '(b, r') := dec_bal (Z.to_nat n) r in
+      let ops := dec_kops (List.length r') r' in
+      Z.b2z (ks_scope [ks_fresh t s o v] b ops) :: flat_map enc_kobs (ks_run [ks_fresh t s o v] b ops)
   | _ => []
   end.
 
@@ -233,6 +280,8 @@ Definition table : list (string * (list Z -> list Z)) :=
   [ ("c14_prank"%string, c14_prank);
     ("c14_prank_spec"%string, c14_prank_spec);
     ("c14_prank_obj"%string, c14_prank_obj);
+    ("c14_prank_kinds"%string, c14_prank_kinds);
+    ("c14_prank_kinds_spec"%string, c14_prank_kinds_spec);
     ("c14_state"%string, c14_state);
     ("c14_fork"%string, c14_fork);
     ("c14_creator"%string, c14_creator);
